@@ -286,7 +286,8 @@ def finding_matches(f, v):
         return False
     sig = f.get("signature", {})
     vs = v.get("signature", {})
-    return all(vs.get(k) == val for k, val in sig.items())
+    # a list in the finding = any of these values (e.g. the calls whose failure opens the known window)
+    return all((vs.get(k) in val) if isinstance(val, list) else (vs.get(k) == val) for k, val in sig.items())
 
 
 # --------------------------------------------------------------------------
